@@ -4,9 +4,12 @@ package sm2
 
 import (
 	"bytes"
+	"context"
 	"fmt"
 	"io"
 	"math/big"
+	"os"
+	"syscall"
 	"testing"
 
 	"github.com/bilibili/smgo/zzverif/hk"
@@ -44,8 +47,10 @@ func TestVerifC19(t *testing.T) {
 	over := [][]byte{ref.B32(nI), ref.B32(new(big.Int).Add(nI, bi(1))), ref.B32(new(big.Int).Sub(b256, bi(1))), ref.B32(nm1)}
 	// n-1 is rejected by key generation; for signing it is a legal nonce, so the
 	// model decides per entry point.
-	errKinds := []error{nil, io.ErrUnexpectedEOF, errCustom}
-	errNames := []string{"EOF", "ErrUnexpectedEOF", "custom"}
+	// error VALUES: plain, sentinel, self-classifying (Temporary/Timeout), errno, wrapped
+	errKinds := []error{nil, io.ErrUnexpectedEOF, errCustom, errTemporary{}, errTemporary{timeout: true}, syscall.EAGAIN, syscall.EINTR, os.ErrDeadlineExceeded, context.DeadlineExceeded,
+		fmt.Errorf("read /dev/hwrng: %w", syscall.EAGAIN), io.ErrNoProgress, io.ErrShortBuffer, &os.PathError{Op: "read", Path: "/dev/random", Err: syscall.EINTR}}
+	errNames := []string{"EOF", "ErrUnexpectedEOF", "custom", "Temporary", "Temporary+Timeout", "EAGAIN", "EINTR", "os.ErrDeadlineExceeded", "context.DeadlineExceeded", "wrapped-EAGAIN", "ErrNoProgress", "ErrShortBuffer", "PathError-EINTR"}
 	chunks := []int{0, 1, 7, 31}
 	entries := []string{"GenerateKey", "SignHashed", "SignZa", "Sign"}
 
@@ -60,6 +65,7 @@ func TestVerifC19(t *testing.T) {
 		nrej     int
 		src      int  // index into sourceKindNames
 		trans    bool // the failure is transient
+		repeat   int  // transient: reported this many times in a row
 	}
 	var cases []fcase
 	for nrej := 0; nrej <= 3; nrej++ {
@@ -72,7 +78,7 @@ func TestVerifC19(t *testing.T) {
 			stream = append(stream, rng.Bytes(32)...)
 			for _, entry := range entries {
 				for failAt := 0; failAt <= (nrej+1)*32+1; failAt++ {
-					for ek := range errKinds {
+					for ek := range errKinds[:3] {
 						for _, wd := range []bool{false, true} {
 							for ci, ch := range chunks {
 								if !hk.Thorough() && (failAt+ek+ci)%2 == 1 && failAt%32 != 0 && failAt%32 != 31 {
@@ -95,11 +101,12 @@ func TestVerifC19(t *testing.T) {
 							if !hk.Thorough() && (failAt+src+ti+variant)%2 == 1 && failAt%32 != 0 && failAt%32 != 31 {
 								continue
 							}
-							ek := (failAt + src) % len(errKinds)
+							ek := (failAt + src*5 + ti*3 + variant) % len(errKinds)
 							if tr && ek == 0 {
-								ek = 2 // a transient EOF makes no sense
+								ek = 3 // a transient EOF makes no sense
 							}
-							cases = append(cases, fcase{entry: entry, stream: stream, failAt: failAt, ek: ek, withData: (failAt+src)%3 == 0, chunk: chunks[(failAt+ti)%len(chunks)], nrej: nrej, src: src, trans: tr})
+							cases = append(cases, fcase{entry: entry, stream: stream, failAt: failAt, ek: ek, withData: (failAt+src)%3 == 0, chunk: chunks[(failAt+ti)%len(chunks)], nrej: nrej, src: src, trans: tr,
+								repeat: []int{1, 1, 2, 3, 5}[(failAt+src)%5]})
 						}
 					}
 				}
@@ -128,7 +135,7 @@ func TestVerifC19(t *testing.T) {
 			avail = avail[:c.failAt]
 		}
 		rd := newScript(c.stream)
-		rd.failAt, rd.failErr, rd.failWithData, rd.chunk, rd.zeroEvery, rd.transient = c.failAt, errKinds[c.ek], c.withData, c.chunk, c.zero, c.trans
+		rd.failAt, rd.failErr, rd.failWithData, rd.chunk, rd.zeroEvery, rd.transient, rd.repeat = c.failAt, errKinds[c.ek], c.withData, c.chunk, c.zero, c.trans, c.repeat
 		src := wrapSource(rd, c.src)
 		det := hk.D{"source_type": sourceKindNames[c.src], "transient": c.trans, "entry": c.entry, "stream": hk.Hex(c.stream), "fail_at": c.failAt, "err_kind": errNames[c.ek], "with_data": c.withData, "chunk": c.chunk, "zero_every": c.zero, "priv": hk.Hex(priv)}
 		pos := "none"
@@ -137,7 +144,7 @@ func TestVerifC19(t *testing.T) {
 		}
 		cls := fmt.Sprintf("%s:nrej=%d,fail=%s", c.entry, c.nrej, pos)
 		if c.src != 0 || c.trans {
-			cls = fmt.Sprintf("%s:src=%s,transient=%v,nrej=%d,fail=+%d", c.entry, sourceKindNames[c.src], c.trans, c.nrej, c.failAt%32)
+			cls = fmt.Sprintf("%s:src=%s,transient=%v,repeat=%d,nrej=%d,fail=+%d", c.entry, sourceKindNames[c.src], c.trans, c.repeat, c.nrej, c.failAt%32)
 		}
 		if c.entry == "GenerateKey" {
 			model := ref.SM2KeyGen(avail)
